@@ -356,7 +356,16 @@ impl<T: Qcow2IoOps> Qcow2Dev<T> {
                 self.mark_new_cluster(l2_offset >> info.cluster_bits())
                     .await;
 
-                let _ = l2_table.map_cluster(split.l2_slice_index(info), l2_offset);
+                // the replaced cluster of compressed mapping is released after
+                // copy on write is done, but the preallocated cluster of zero
+                // mapping isn't referenced any more from now on
+                let compressed = l2_table.get_entry(info, split).is_compressed();
+                if let Some((off, cnt)) = l2_table.map_cluster(split.l2_slice_index(info), l2_offset)
+                {
+                    if !compressed {
+                        self.free_clusters(off, cnt).await?;
+                    }
+                }
                 Ok(l2_table.get_mapping(info, split))
             }
             None => Err("DataFile mapping: None offset None".into()),
@@ -472,7 +481,13 @@ impl<T: Qcow2IoOps> Qcow2Dev<T> {
 
                     // this is one new cluster
                     self.mark_new_cluster(l2_off >> info.cluster_bits()).await;
-                    let _ = l2_table.map_cluster(split.l2_slice_index(info), l2_off);
+
+                    // release the preallocated cluster of zero mapping
+                    if let Some((off, cnt)) =
+                        l2_table.map_cluster(split.l2_slice_index(info), l2_off)
+                    {
+                        self.free_clusters(off, cnt).await?;
+                    }
 
                     //load new entry
                     let entry = l2_table.get_entry(info, &split);
